@@ -76,3 +76,10 @@ Proof.
 Qed.
 
 End ListX.
+
+Lemma flat_map_ext_in {A B : Type} (f g : A -> list B) (l : list A) :
+  (forall a, In a l -> f a = g a) -> flat_map f l = flat_map g l.
+Proof.
+  induction l as [|x t IH]; simpl; intros H; [reflexivity|].
+  rewrite (H x (or_introl eq_refl)), IH; [reflexivity|]. intros a Ha. apply H. right; exact Ha.
+Qed.
